@@ -7,7 +7,7 @@ Machine = hgm.IdMachine
 
 PROP = {
     "id": "C06",
-    "quick_n": 220,
+    "quick_n": 330,
     "thorough_n": 5000,
     "rule": "one program = a history over a pool of up to 7 aggregators (two or three constructed "
             "separately from the same spec, some relying on default arguments), interleaving "
@@ -31,16 +31,23 @@ def add_defaults(r, spec):
 
 def gen_one(r, i, tier):
     dyadic = (i % 3 != 2)
-    g = gen.G(r, dyadic=dyadic, max_depth=3)
+    vect = dyadic and (i % 2 == 1)          # programs that also fill vectorised
+    g = gen.G(r, dyadic=dyadic, max_depth=3, vecbags=not vect)
     spec = g.spec(kind=r.choice(gen.NODES + ["Select", "Select", "SparselyBin", "Categorize", "Bag"]))
     add_defaults(r, spec)
+    # (the batch formulas of Average/Deviate round differently from the row recurrences)
+    vect = vect and not base.has_kind(spec, ["Average", "Deviate"]) and any("q" in s_ for s_ in gen.walk(spec))
     vals = gen.critical_values(spec)
     ops = [("new", spec), ("new", spec)]
     npool = 2
     n = r.randint(5, 14 if tier == "quick" else 30)
     for _ in range(n):
         c = r.random()
-        if c < 0.5:
+        if vect and c < 0.15:
+            rows = [d for d, _ in base.small_stream(r, spec, r.randint(0, 5), [1.0], cats=["a", "b", "zz", ""])]
+            rows = [[float(v) if not isinstance(v, str) else v for v in d] for d in rows]
+            ops.append(("fillnp", r.randrange(npool), rows, [r.choice([1.0, 2.0, 0.5, 0.0]) for _ in rows]))
+        elif c < 0.5:
             d = base.small_stream(r, spec, 1, [1.0])[0][0] if dyadic else gen.datum(r, vals)
             ops.append(("fill", r.randrange(npool), d, r.choice(gen.POSWEIGHTS)))
         elif c < 0.62 and npool < 7:
@@ -53,8 +60,10 @@ def gen_one(r, i, tier):
             ops.append(("copy", r.randrange(npool))); npool += 1
         elif c < 0.92 and npool < 7:
             ops.append(("zero", r.randrange(npool))); npool += 1
-        elif c < 0.96:
+        elif c < 0.94:
             ops.append(("hash", r.randrange(npool)))
+        elif c < 0.97:
+            ops.append(("pure", r.randrange(npool), r.randrange(npool)))
         elif npool < 7:
             ops.append(("new", spec)); npool += 1
     return {"ops": ops, "meta": {}}
@@ -77,7 +86,7 @@ def oracle(p, run, exact):
     prev = None
     for i, (o, snaps) in enumerate(zip(p["ops"], m.snaps)):
         if prev is not None:
-            target = o[1] if o[0] in ("fill", "iadd") else None
+            target = o[1] if o[0] in ("fill", "fillnp", "iadd") else None
             for j, (a, b) in enumerate(zip(prev, snaps)):
                 if j != target and a != b:
                     fails.append({"clause": "op %s changed pool[%d], which is not its target" % (o[0], j),
